@@ -430,9 +430,13 @@ func c33Scenario(c *vctx, rng *vrng, num int, kind string, f c33Force) error {
 		readAll = f.readAll == 1
 	}
 	fullN, overN := uint(1000000), uint(2000000)
-	if (f.keepable < 0 && rng.chance(35)) || f.keepable == 1 {
+	if (f.keepable < 0 && rng.chance(35)) || f.keepable >= 1 {
 		fullN = uint(1 + rng.intn(5))
 		overN = fullN + uint(1+rng.intn(6))
+		if f.keepable == 2 || (f.keepable < 0 && rng.chance(40)) {
+			// every non-empty index file counts as full and not oversized
+			fullN, overN = 1, 100000
+		}
 		saveFull, saveOver := index.Full, index.Oversized
 		index.Full = func(idx *index.Index) bool { return c33Count(idx) >= fullN }
 		index.Oversized = func(idx *index.Index) bool { return c33Count(idx) >= overN }
@@ -564,6 +568,10 @@ func engineC33(c *vctx) error {
 		{"corpus-hdrflip", c33Force{readAll: 1, nfiles: 1, corrupt: 0, keepable: 0, fake: 0, damage: "hdrflip", treatment: "exact"}},
 		{"corpus-corrupt-index", c33Force{readAll: 0, nfiles: 2, corrupt: 2, keepable: 0, fake: 0, damage: "none", treatment: "exact"}},
 		{"corpus-keepable", c33Force{readAll: 0, nfiles: 3, corrupt: 0, keepable: 1, fake: 0, damage: "none", treatment: "exact"}},
+		{"corpus-full-index-missing-pack", c33Force{readAll: 0, nfiles: 1, corrupt: 0, keepable: 2, fake: 1, damage: "delete", treatment: "exact"}},
+		{"corpus-full-index-truncated-pack", c33Force{readAll: 0, nfiles: 1, corrupt: 0, keepable: 2, fake: 0, damage: "truncate", treatment: "exact"}},
+		{"corpus-full-index-truncated-pack", c33Force{readAll: 0, nfiles: 2, corrupt: 0, keepable: 2, fake: 0, damage: "append", treatment: "exact"}},
+		{"corpus-full-index-dup", c33Force{readAll: 0, nfiles: 2, corrupt: 0, keepable: 2, fake: 0, damage: "none", treatment: "dup"}},
 	}
 	for _, cc := range corpus {
 		for rep := 0; rep < 2; rep++ {
@@ -573,7 +581,7 @@ func engineC33(c *vctx) error {
 			num++
 		}
 	}
-	n := c.n(45, 1500)
+	n := c.n(36, 1500)
 	for i := 0; i < n; i++ {
 		if err := c33Scenario(c, c.rng.fork(), num, "random", free); err != nil {
 			return fmt.Errorf("scenario %d: %w", num, err)
